@@ -6,7 +6,10 @@ Case kinds (all JSON-able):
   {'k':'r', 'text': ...}
         an arbitrary (mutated / malformed / SyntaxError-form) text: correspondence + totality only
   {'k':'l', 'mods':[...], 'links':[...], 'exc':{...}, 'limit': None|int, 'order': 'b'|'s',
-   optional: 'tblimit': int (sys.tracebacklimit), 'skip': int (hand over tb.tb_next), 'seq': 'dict'|'build'}
+   optional: 'tblimit': int (sys.tracebacklimit), 'skip': int (hand over tb.tb_next), 'seq': 'dict'|'build',
+   'prior': [capture, ...] earlier captures of the same session (exception part only), capture = an 'exc' spec
+            ('cname' bare class name, 'outer' enclosing class / function, 'set' naming attributes assigned right before
+            the raise, kind 'same' = the class object of the last capture) + 'via': 'ep'|'pe' + optional 'm'}
         a generated program (nested calls through generated modules, lambdas, exec, recursion, functions that
         re-raise the exception they caught ...) that raises; the live exception goes through ExceptionInfo /
         TracebackInfo / print_exception and through the traceback module ('order': who is asked first)
@@ -137,10 +140,12 @@ class C16(Property):
             'file / line number / function / optional source line / optional position-marker line, a type name and '
             'an empty, one-line or multi-line message, with or without the final newline, handed over as str or as '
             'UTF-8 bytes; (r) a mutated or malformed text; (l) a generated program whose nested calls (plain, lambda, '
-            'method, generator, coroutine, exec, eval, recursion, decorator, property, no-source code, and functions '
+            'method, generator, coroutine, exec, eval, recursion - plain, through a def and a lambda on one line, from two '
+            'lines in turn; run lengths around the interpreter\'s cut-off of 3 -, decorator, property, no-source code, and functions '
             'that catch the exception and hand the same object on: raise e / bare raise / with_traceback / a trimmed '
             'or rebuilt traceback / after the handler / nested handlers / a retry loop / generator.throw / finally) '
-            'raise an exception that is formatted by boltons (ExceptionInfo from_exc_info and from_current, '
+            'raise an exception (builtin, module-level, nested in a class or a function, with its own __str__, with a '
+            '__str__ that raises, with a reassigned __module__) that is formatted by boltons (ExceptionInfo from_exc_info and from_current, '
             'TracebackInfo with and without limit, ContextualExceptionInfo, print_exception with and without limit; '
             'objects built, formatted and to_dict()ed in three different orders) and by the traceback module, boltons '
             'first or second. The modules of the program have their source in a hand-registered linecache entry '
@@ -150,7 +155,11 @@ class C16(Property):
             'identical) was read into linecache by linecache.getlines, by an earlier boltons report or by an earlier '
             'traceback-module report, the file was rewritten with the same or another mtime, made undecodable or '
             'removed; module globals may carry a __file__ that is not the code\'s file name; sys.tracebacklimit may be '
-            'set (>= 1); the caller may hand over tb.tb_next. First in the stream: an enumerated family of ~400 small '
+            'set (>= 1); the caller may hand over tb.tb_next; the failing run may be the last capture of a session: one to '
+            'three other exceptions are raised and captured first (ExceptionInfo and print_exception, either first) whose '
+            'classes share module and bare name with the last one (nested in other classes / functions), share the '
+            'qualified name across modules, are redefined, shadow a builtin, or are the same class object whose '
+            '__module__ / __qualname__ / __name__ is reassigned between the captures. First in the stream: an enumerated family of ~520 small '
             'live cases over all of these dimensions; then all texts with <= 2 frames over the option alphabet; then '
             'seeded random texts (non-ASCII paths, quotes, frame-like fragments), adversarial mutations and random '
             'live cases. Non-trivial = (t) at least one frame and the text is in the statement\'s domain, (r) the '
@@ -158,10 +167,13 @@ class C16(Property):
     ASSUMPTIONS = [
         'a traceback text is compared without the interpreter\'s final newline (to_string() never emits one); '
         'ExceptionInfo.get_formatted() is compared with the interpreter\'s output minus that final newline',
-        'position-marker lines (only ~ ^ and spaces, after a source line) are not reproduced by to_string()/get_formatted()',
+        'position-marker lines (only ~ ^ and spaces, after a source line) are left aside: formatted output is compared '
+        'with the interpreter\'s text without them, and output that keeps any of the interpreter\'s own marker lines is '
+        'accepted as well (boltons prints none today)',
         'Callpoint.line / to_dict()["line"] keeps leading indentation; it is compared with FrameSummary.line after strip()',
         'call chains are shallower than sys.getrecursionlimit() (TracebackInfo stops at 1000 entries by default)',
-        'text is a sequence of Unicode scalar values; str() of the exception does not raise; no SyntaxError, '
+        'text is a sequence of Unicode scalar values; when str() of the exception raises, it raises an Exception (not a '
+        'bare BaseException such as KeyboardInterrupt); no SyntaxError, '
         'chained causes, notes or exception groups (excluded by the statement)',
         'character classes of re \\d, str.isspace and str.splitlines are regenerated from the running interpreter',
         'the reference for a live exception is the traceback module asked about the same traceback object in the same '
@@ -183,11 +195,34 @@ class C16(Property):
         digits = _ranges(i for i in _scalars() if d.match(chr(i)))
         spaces = _ranges(i for i in _scalars() if chr(i).isspace())
         seps = [i for i in _scalars() if len(('a' + chr(i) + 'b').splitlines()) > 1]
-        shapes = {
-            'frameReShape': regex_shape(tbutils._frame_re.pattern),
-            'seFrameReShape': regex_shape(tbutils._se_frame_re.pattern),
-            'underlineReShape': regex_shape(tbutils._underline_re.pattern),
-        }
+        shapes = {}
+        how = {}
+        for key, attr in (('frameReShape', '_frame_re'), ('seFrameReShape', '_se_frame_re'),
+                          ('underlineReShape', '_underline_re')):
+            pat = getattr(getattr(tbutils, attr, None), 'pattern', None)
+            shape = None
+            if isinstance(pat, str):
+                try:
+                    shape = regex_shape(pat)
+                except Exception:
+                    shape = None
+            if shape == self.CANON_SHAPES[key]:
+                how[key] = 'regex'
+            else:
+                # the scanner is not (or no longer) this regular expression: an equivalent pattern written
+                # differently, or a scanner written without `re`.  What the theorems need is the language and the
+                # groups, not the notation: ask ParsedException.from_string itself about a finite family of lines
+                # over the alphabet of the line grammar and compare with the canonical pattern (compiled here)
+                bad = self.probe_scanner(tbutils, key)
+                if bad is None:
+                    shape, how[key] = self.CANON_SHAPES[key], 'probe'
+                else:
+                    shape = (shape or []) + ['probe-mismatch:' + bad]
+                    how[key] = 'mismatch'
+            shapes[key] = shape
+        self.stats['scanner_tie'] = ', '.join('%s: %s' % (k, how[k]) for k in sorted(how))
+        plain, plain_how = self.plain_modules(tbutils)
+        self.stats['plain_modules_tie'] = plain_how
 
         def pairs(rs):
             return '[' + ', '.join('(%d, %d)' % (a, b) for a, b in rs) + ']'
@@ -205,8 +240,122 @@ class C16(Property):
                'def sepCps : List Nat := %s\n\n' % (pairs(digits), pairs(spaces), seps))
         for name in sorted(shapes):
             src += 'def %s : List (List Char) := %s\n\n' % (name, strs(shapes[name]))
+        src += ('/-- the module names whose exception classes are printed without the module prefix (both copies of the test\n'
+                '    in the source: ExceptionInfo.from_exc_info and format_exception_only) -/\n'
+                'def plainModNames : List (List Char) := %s\n\n' % strs(plain))
         src += 'end C16.Gen\n'
         return {'C16_Tables.lean': src}
+
+    CANON_SHAPES = {
+        'frameReShape': ['^', 'lit:File "', 'any+', 'lit:", line ', 'digit+', 'lit:, in ', 'any+', '$'],
+        'seFrameReShape': ['^', 'lit:File "', 'any+', 'lit:", line ', 'digit+'],
+        'underlineReShape': ['^', 'set*: ^~', '$'],
+    }
+    CANON_RE = {
+        'frameReShape': re.compile(r'^File "(.+)", line (\d+), in (.+)$'),
+        'seFrameReShape': re.compile(r'^File "(.+)", line (\d+)'),
+        'underlineReShape': re.compile(r'^[~^ ]*$'),
+    }
+    PROBE_TOKENS = ['File "', '", line ', ', in ', '7', '0', '\u0663', '\u00b2', 'a', ' ', '"', ',', 'F', 'line', 'in', '\u00e9']
+    PROBE_UL = ['~', '^', ' ', 'x', '\t', '-', '\u00a0', '~^', '_']
+
+    def plain_modules(self, tbutils):
+        """the literal collections of module names the source tests `__module__` against (every `in` / `not in`
+        comparison with a tuple / list / set literal of strings that contains '__main__'); when the source has no such
+        literal (a refactored test) the names are found by asking both entry points about classes of ~35 candidate
+        module names"""
+        import ast
+        import inspect
+        found = []
+        try:
+            tree = ast.parse(inspect.getsource(tbutils))
+            for node in ast.walk(tree):
+                if isinstance(node, ast.Compare) and len(node.ops) == 1 and isinstance(node.ops[0], (ast.In, ast.NotIn)):
+                    c = node.comparators[0]
+                    if isinstance(c, (ast.Tuple, ast.List, ast.Set)) and c.elts and \
+                            all(isinstance(e, ast.Constant) and isinstance(e.value, str) for e in c.elts):
+                        names = sorted(set(e.value for e in c.elts))
+                        if '__main__' in names:
+                            found.append(names)
+        except (OSError, TypeError, SyntaxError):
+            found = []
+        if found:
+            if all(f == found[0] for f in found):
+                return found[0], 'source literals (%d)' % len(found)
+            return sorted(set(x for f in found for x in f)) + ['the-copies-differ'], 'source literals differ'
+        plain = []
+        for name in sorted(set(self.MOD_NAMES + ['__main__', 'builtins'])):
+            E = type('E', (Exception,), {})
+            E.__module__ = name
+            try:
+                try:
+                    raise E('x')
+                except E:
+                    a = tbutils.ExceptionInfo.from_current().exc_type
+                b = tbutils.format_exception_only(E, E('x'))[-1]
+            except Exception as e:
+                return ['probe-failed:' + exc_name(e)], 'probe failed'
+            if (a == 'E') != (b == 'E: x\n'):
+                return ['the-copies-differ:' + name], 'probe: the two entry points differ'
+            if a == 'E':
+                plain.append(name)
+        return plain, 'probe'
+
+    def probe_lines(self, key):
+        import random
+        rnd = random.Random('C16-probe-' + key)      # the same family on every run
+        if key == 'underlineReShape':
+            for n in range(0, 5):
+                for seq in itertools.product(self.PROBE_UL, repeat=n):
+                    yield ''.join(seq)
+            return
+        T = self.PROBE_TOKENS
+        for n in range(0, 4):
+            for seq in itertools.product(T, repeat=n):
+                yield ''.join(seq)
+        def part(lo, hi, toks):
+            return ''.join(rnd.choice(toks) for _ in range(rnd.randint(lo, hi)))
+        for _ in range(30000):
+            path = part(0, 4, T)
+            num = part(0, 3, ['7', '0', '\u0663', '\u00b2', 'a', ' ', ''])
+            tail = rnd.choice(['', ', in ', ', in', ',in f', ' , in f', ', in  ']) + part(0, 3, T)
+            yield rnd.choice(['File "', 'File "', 'file "', ' File "', 'File"', 'xFile "']) + path + \
+                rnd.choice(['", line ', '", line ', '",line ', '" line ', "', line "]) + num + tail
+
+    def probe_scanner(self, tbutils, key):
+        """None when from_string treats every probe line as the canonical pattern does, else a description of the
+        first line on which it does not"""
+        ref = self.CANON_RE[key]
+        n = 0
+        for ln in self.probe_lines(key):
+            try:
+                with time_limit(10):
+                    if key == 'underlineReShape':
+                        pe = tbutils.ParsedException.from_string(HEADER + '\n  File "a", line 1, in f\n    src\n' + ln + '\nE: m')
+                        got = [len(pe.frames), pe.exc_type, pe.exc_msg]
+                        rest = 'E: m' if ref.match(ln) else ln + '\nE: m'
+                        want = [1, rest.partition(': ')[0], rest.partition(': ')[2]]
+                    elif key == 'frameReShape':
+                        pe = tbutils.ParsedException.from_string(HEADER + '\n' + ln + '\nE: m')
+                        got = [[f.get('filepath'), f.get('lineno'), f.get('funcname')] for f in pe.frames]
+                        m = ref.match(ln.strip())
+                        want = [list(m.groups())] if m else []
+                    else:
+                        if not ln.strip():
+                            continue
+                        pe = tbutils.ParsedException.from_string(ln + '\n    x\n  ^\nSyntaxError: bad')
+                        got = [[f.get('filepath'), f.get('lineno'), f.get('funcname')] for f in pe.frames]
+                        m = ref.match(ln.strip())
+                        want = [list(m.groups()) + [None]] if m else []
+            except CaseTimeout:
+                return 'timeout on %r' % ln
+            except Exception as e:
+                return '%s on %r' % (exc_name(e), ln)
+            n += 1
+            if got != want:
+                return '%r read as %r, the pattern says %r' % (ln, got, want)
+        self.stats['scanner_probe_lines_' + key] = n
+        return None
 
     # ------------------------------------------------------------------ the statement's domain (texts)
     @staticmethod
@@ -445,14 +594,14 @@ class C16(Property):
             elif r < 0.8:
                 yield {'k': 'r', 'text': self.mutate_text(self.std_text(c))}
             else:
-                yield self.random_live_case(big=rng.random() < 0.1)
+                yield self.random_live_case(big=rng.random() < 0.1, session=True)
 
     # ------------------------------------------------------------------ generation: live call chains
     LIVE_FILES = ['/bv/c16/m%d.py', '/bv c16/d\u00e9 %d/mod.py', 'rel%d.py', '<bv-gen-%d>', 'C:\\bv\\m%d.py',
                   '/bv/"q%d", line 5, in z.py']
     DISK_FILES = ['disk%d.py', 'd \u00e9 %d/mod.py', 'sub%d/a"b, line 5, in z.py']
     LIVE_KINDS = ['call', 'call', 'lambda', 'method', 'gen', 'exec', 'eval', 'rec', 'multi', 'comp', 'deco', 'prop',
-                  'reraise', 'reraise', 'async']
+                  'reraise', 'reraise', 'async', 'rec', 'rec2', 'recalt']
     # how an intermediate function hands an exception it caught on to its caller
     REHOW = ['as_e', 'bare', 'wtb', 'trim', 'after', 'nested', 'loop', 'throw', 'faketb', 'finally']
     BUILTIN_EXC = ['ValueError', 'KeyError', 'TypeError', 'RuntimeError', 'OSError', 'ZeroDivisionError',
@@ -490,7 +639,7 @@ class C16(Property):
         rng = self.rng
         kind = rng.choice(self.LIVE_KINDS)
         ln = {'m': rng.randrange(nm), 'kind': kind}
-        if kind == 'rec':
+        if kind in ('rec', 'rec2', 'recalt'):
             ln['n'] = rng.choice([0, 1, 2, 3, 4, 5, 9]) if not big else rng.choice([2, 3, 4, 40])
         if kind in ('call', 'lambda', 'exec'):
             ln['pad'] = rng.choice(['    ', '  ', '\t', '        '])
@@ -501,7 +650,7 @@ class C16(Property):
                 ln['n'] = rng.choice([0, 1, 2, 3, 4, 6])
         return ln
 
-    def random_live_case(self, big=False):
+    def random_live_case(self, big=False, session=False):
         rng = self.rng
         nm = rng.randint(1, 3)
         mods = []
@@ -522,8 +671,10 @@ class C16(Property):
             mods.append(m)
         depth = rng.randint(0, 6) if not big else rng.randint(10, 30)
         links = [self.random_link(nm, big) for _ in range(depth)]
-        kind = rng.choice(['builtin', 'builtin', 'top', 'top', 'nested', 'inner', 'strsub', 'modattr'])
+        kind = rng.choice(['builtin', 'builtin', 'top', 'top', 'nested', 'inner', 'strsub', 'modattr', 'badstr'])
         exc = {'kind': kind, 'm': rng.randrange(nm), 'args': rng.choice(self.LIVE_ARGS)}
+        if kind == 'badstr':
+            exc['inner'] = rng.choice(['ZeroDivisionError', 'ValueError', 'TypeError', 'Exception', 'RecursionError'])
         if kind == 'builtin':
             exc['name'] = rng.choice(self.BUILTIN_EXC)
         if kind == 'modattr':
@@ -539,6 +690,9 @@ class C16(Property):
             case['skip'] = rng.choice([1, 1, 2, 3])
         if rng.random() < 0.3:
             case['seq'] = rng.choice(['dict', 'build'])
+        if rng.random() < (0.5 if session else 0.2):
+            case['exc'] = dict(self.random_capture(nm, False), m=exc['m'])
+            case['prior'] = [self.random_capture(nm, True) for _ in range(rng.randint(1, 3))]
         return case
 
     def live_family(self):
@@ -618,6 +772,134 @@ class C16(Property):
             yield case([pin], [call], exc={'kind': 'modattr', 'm': 0, 'args': ['x'], 'mod': mod})
         for args in self.LIVE_ARGS:
             yield case([pin], [], exc={'kind': 'strsub', 'm': 0, 'args': args})
+        # an exception whose __str__ raises
+        for inner in ('ZeroDivisionError', 'ValueError', 'Exception'):
+            for order in 'bs':
+                yield case([pin], [call], exc={'kind': 'badstr', 'm': 0, 'args': ['x'], 'inner': inner}, order=order)
+            yield case([pin], [], exc={'kind': 'top', 'm': 0, 'args': ['x']},
+                       prior=[{'kind': 'badstr', 'args': [], 'inner': inner, 'via': 'pe'}])
+        # runs of identical entries (recursion): around the interpreter's cut-off of 3, 'time' / 'times', two runs,
+        # a run cut by the limit, neighbours that share only two of file / line / name
+        for n in (2, 3, 4, 5, 8):
+            for kind in ('rec', 'rec2', 'recalt'):
+                rec = {'m': 0, 'kind': kind, 'n': n}
+                yield case([pin], [rec])
+                yield case([pin], [call, rec, lam], order='s')
+                for limit in (2, 4, 5):
+                    yield case([pin], [rec], limit=limit)
+            yield case([pin], [{'m': 0, 'kind': 'rec', 'n': n}, call, {'m': 0, 'kind': 'rec', 'n': 4}])
+            yield case([pin], [{'m': 0, 'kind': 'rec', 'n': n}, {'m': 0, 'kind': 'rec', 'n': n}], tblimit=n + 3)
+            yield case([pin], [{'m': 0, 'kind': 'rec', 'n': n}], skip=2)
+        # sessions: several captures in one process; exception classes that share a module and a bare name (classes
+        # nested in classes / functions), share a qualified name across modules, are redefined between captures, or
+        # are the same object with its naming attributes reassigned between captures
+        for c in self.session_family(case, pin, call):
+            yield c
+
+    SESSION_PAIRS = [
+        # (earlier capture, later capture): what the two classes have in common
+        ({'kind': 'inner', 'outer': 'Lexer', 'cname': 'Error'}, {'kind': 'inner', 'outer': 'Parser', 'cname': 'Error'}),
+        ({'kind': 'nested', 'outer': 'mk_a', 'cname': 'LocalErr'}, {'kind': 'nested', 'outer': 'mk_b', 'cname': 'LocalErr'}),
+        ({'kind': 'top', 'cname': 'Error'}, {'kind': 'inner', 'outer': 'Box', 'cname': 'Error'}),
+        ({'kind': 'inner', 'outer': 'Box', 'cname': 'Error'}, {'kind': 'top', 'cname': 'Error'}),
+        ({'kind': 'top', 'cname': 'TopErr'}, {'kind': 'top', 'cname': 'TopErr'}),              # redefined, same names
+        ({'kind': 'builtin', 'name': 'ValueError'}, {'kind': 'top', 'cname': 'ValueError'}),   # shadows a builtin's name
+        ({'kind': 'top', 'cname': 'KeyError'}, {'kind': 'builtin', 'name': 'KeyError'}),
+        ({'kind': 'modattr', 'mod': 'builtins', 'cname': 'E'}, {'kind': 'modattr', 'mod': 'x.y', 'cname': 'E'}),
+        ({'kind': 'modattr', 'mod': 'x.y', 'cname': 'E'}, {'kind': 'modattr', 'mod': '__main__', 'cname': 'E'}),
+        ({'kind': 'modattr', 'mod': None, 'cname': 'E'}, {'kind': 'modattr', 'mod': 'None', 'cname': 'E'}),
+        ({'kind': 'modattr', 'mod': 'a.b', 'cname': 'C'}, {'kind': 'modattr', 'mod': 'a', 'cname': 'C', 'set': {'__qualname__': 'b.C'}}),
+        ({'kind': 'strsub', 'cname': 'Error'}, {'kind': 'inner', 'outer': 'K', 'cname': 'Error'}),
+    ]
+    # the same class object, renamed between the captures
+    SESSION_SETS = [
+        ({'__module__': 'x.y'}, {'__module__': 'builtins'}), ({'__module__': '__main__'}, {'__module__': 'pkg'}),
+        ({'__qualname__': 'A.Err'}, {'__qualname__': 'B.Err'}), ({'__name__': 'Renamed'}, {'__qualname__': 'Q'}),
+        ({'__module__': 'm', '__qualname__': 'A.B'}, {'__module__': 'm.A', '__qualname__': 'B'}),
+        ({}, {'__module__': None}), ({'__module__': None}, {'__module__': 'bvm0'}),
+    ]
+
+    def session_family(self, case, pin, call):
+        def cap(spec, args, **kw):
+            return dict(dict(spec, args=args), **kw)
+        for a, b in self.SESSION_PAIRS:
+            for via in ('ep', 'pe'):
+                yield case([pin], [call], exc=cap(b, ['x'], m=0), prior=[cap(a, ['y: z'], via=via)])
+            yield case([pin], [], exc=cap(b, [''], m=0), prior=[cap(a, ['u'], via='ep'), cap(b, ['v'], via='pe'), cap(a, [], via='ep')])
+            # the two classes live in two modules of the same / of different names
+            for n2 in ('bvm0', 'bvm1', '__main__'):
+                yield case([pin, {'file': '/bv/c16/m1.py', 'name': n2, 'reg': 'cache'}], [call], exc=cap(b, ['x'], m=0),
+                           prior=[cap(a, ['y'], m=1, via='ep')])
+        for s1, s2 in self.SESSION_SETS:
+            for kind in ('top', 'inner'):
+                yield case([pin], [call], exc={'kind': kind, 'm': 0, 'args': ['x'], 'set': s2},
+                           prior=[{'kind': 'same', 'args': ['y'], 'set': s1, 'via': 'ep'}])
+                yield case([pin], [], exc={'kind': kind, 'm': 0, 'args': [], 'set': s1},
+                           prior=[{'kind': 'same', 'args': ['y'], 'set': s2, 'via': 'pe'},
+                                  {'kind': 'same', 'args': ['w'], 'set': s1, 'via': 'ep'}])
+
+    def random_capture(self, nm, prior):
+        rng = self.rng
+        kind = rng.choice(['builtin', 'top', 'nested', 'inner', 'strsub', 'modattr', 'badstr'] + (['same', 'same'] if prior else []))
+        c = {'kind': kind, 'args': rng.choice(self.LIVE_ARGS)}
+        if kind == 'builtin':
+            c['name'] = rng.choice(self.BUILTIN_EXC)
+        elif kind != 'same':
+            c['cname'] = rng.choice(['Error', 'Err', 'E', 'ValueError', 'C'])
+            if kind in ('nested', 'inner'):
+                c['outer'] = rng.choice(['A', 'B', 'mk', 'Lexer'])
+            if kind == 'modattr':
+                c['mod'] = rng.choice(['builtins', '__main__', 'x.y', None, 'bvm0', 'A'])
+        if kind == 'same' or (kind != 'builtin' and rng.random() < 0.25):
+            st = {}
+            if rng.random() < 0.6:
+                st['__module__'] = rng.choice(['builtins', '__main__', 'x.y', None, 'bvm0', 'A', ''])
+            if rng.random() < 0.6:
+                st['__qualname__'] = rng.choice(['A.Error', 'B.Error', 'Error', 'mk.<locals>.E', 'E'])
+            if rng.random() < 0.2:
+                st['__name__'] = rng.choice(['Error', 'E', 'N'])
+            c['set'] = st
+        if prior:
+            c['via'] = rng.choice(['ep', 'pe'])
+            if nm > 1 and rng.random() < 0.3:
+                c['m'] = rng.randrange(nm)
+        return c
+
+    @staticmethod
+    def _exc_def(L, exc, tag):
+        """append the definition of the exception class of one capture to the module source L; returns the
+        expression that names the class. 'cname' = the class's bare name, 'outer' = the enclosing class / function"""
+        k = exc['kind']
+        if k == 'builtin':
+            return exc['name']
+        if k == 'top':
+            cn = exc.get('cname', 'TopErr')
+            L += ['class %s(Exception):' % cn, '    pass']
+            return cn
+        if k == 'nested':
+            cn, mk = exc.get('cname', 'LocalErr'), exc.get('outer', 'mk' + tag)
+            L += ['def %s():' % mk, '    class %s(Exception):' % cn, '        pass', '    return %s' % cn,
+                  '%s%s = %s()' % (cn, tag, mk)]
+            return cn + tag
+        if k == 'inner':
+            cn, outer = exc.get('cname', 'InnerErr'), exc.get('outer', 'Outer' + tag)
+            L += ['class %s:' % outer, '    class %s(ValueError):' % cn, '        pass']
+            return '%s.%s' % (outer, cn)
+        if k == 'strsub':
+            cn = exc.get('cname', 'StrErr')
+            L += ['class %s(Exception):' % cn, '    def __str__(self):',
+                  '        return "/".join(str(a) for a in self.args)']
+            return cn
+        if k == 'badstr':
+            cn = exc.get('cname', 'BadStrErr')
+            L += ['class %s(Exception):' % cn, '    def __str__(self):',
+                  '        raise %s("str() of the exception raises")' % exc.get('inner', 'ZeroDivisionError')]
+            return cn
+        if k == 'modattr':
+            cn = exc.get('cname', 'ModErr')
+            L += ['class %s(Exception):' % cn, '    pass', '%s.__module__ = %r' % (cn, exc['mod'])]
+            return cn
+        raise ValueError(k)
 
     @staticmethod
     def program(case):
@@ -648,6 +930,14 @@ class C16(Property):
             elif kind == 'rec':
                 L += ['def fn%d(n=%d):' % (i, ln.get('n', 1)), '    if n:', '        return fn%d(n - 1)' % i,
                       '    return %s()' % nxt, 'R[%d] = fn%d' % (i, i)]
+            elif kind == 'rec2':
+                # recursion through a def and a lambda on ONE line: consecutive entries share file and line, not the name
+                L += ['def fn%d(n=%d): return (lambda: fn%d(n - 1) if n else %s())()' % (i, ln.get('n', 1), i, nxt),
+                      'R[%d] = fn%d' % (i, i)]
+            elif kind == 'recalt':
+                # recursion from two lines in turn: consecutive entries share file and name, not the line
+                L += ['def fn%d(n=%d):' % (i, ln.get('n', 1)), '    if n % 2:', '        return fn%d(n - 1)' % i, '    if n:',
+                      '        return fn%d(n - 1)' % i, '    return %s()' % nxt, 'R[%d] = fn%d' % (i, i)]
             elif kind == 'multi':
                 L += ['def fn%d():' % i, '    return (1 +', '            %s(' % nxt, '            ))', 'R[%d] = fn%d' % (i, i)]
             elif kind == 'comp':
@@ -705,28 +995,29 @@ class C16(Property):
         n = len(links)
         L = srcs[exc['m']]
         args = ', '.join(repr(a) for a in exc['args'])
-        k = exc['kind']
-        if k == 'builtin':
-            cls = exc['name']
-        elif k == 'top':
-            L += ['class TopErr(Exception):', '    pass']
-            cls = 'TopErr'
-        elif k == 'nested':
-            L += ['def mk():', '    class LocalErr(Exception):', '        pass', '    return LocalErr', 'LocalErr = mk()']
-            cls = 'LocalErr'
-        elif k == 'inner':
-            L += ['class Outer:', '    class InnerErr(ValueError):', '        pass']
-            cls = 'Outer.InnerErr'
-        elif k == 'strsub':
-            L += ['class StrErr(Exception):', '    def __str__(self):',
-                  '        return "/".join(str(a) for a in self.args)']
-            cls = 'StrErr'
-        elif k == 'modattr':
-            L += ['class ModErr(Exception):', '    pass', 'ModErr.__module__ = %r' % (exc['mod'],)]
-            cls = 'ModErr'
-        else:
-            raise ValueError(k)
-        L += ['def fn%d():' % n, '    raise %s(%s)' % (cls, args), 'R[%d] = fn%d' % (n, n)]
+        priors = case.get('prior') or []
+        cls = C16._exc_def(L, exc, '')
+        sets = ['    XC.%s = %r' % (a, v) for a, v in sorted((exc.get('set') or {}).items())]
+        if priors or sets:
+            L += ['XC = %s' % cls]
+        L += ['def fn%d():' % n] + sets + ['    raise %s(%s)' % (cls, args), 'R[%d] = fn%d' % (n, n)]
+        # earlier captures of the same session: other exception classes (same bare name, other qualified name;
+        # the same class object with its naming attributes reassigned; same names in another module ...), each
+        # raised by a function of its own
+        for j, pr in enumerate(priors):
+            P = srcs[pr.get('m', exc['m'])]
+            tag = 'p%d' % j
+            if pr['kind'] == 'same':
+                P += ['XC%s = None' % tag]
+                who = 'R[%r]' % 'XC'
+            else:
+                P += ['XC%s = %s' % (tag, C16._exc_def(P, pr, tag))]
+                who = 'XC%s' % tag
+            P += ['def pfn%d():' % j]
+            P += ['    %s.%s = %r' % (who, a, v) for a, v in sorted((pr.get('set') or {}).items())]
+            P += ['    raise %s(%s)' % (who, ', '.join(repr(a) for a in pr['args'])), 'R[%r] = pfn%d' % ('P%d' % j, j)]
+        if any(pr['kind'] == 'same' for pr in priors):
+            srcs[exc['m']] += ['R[%r] = XC' % 'XC']
         return ['\n'.join(l) + '\n' for l in srcs]
 
     class _Loader:
@@ -838,6 +1129,15 @@ class C16(Property):
         R = {}
         load(srcs, R)
         info = cur = None
+        # the earlier captures of the session (exception part only: nothing here looks a source line up)
+        self._prior_obs = []
+        for j, pr in enumerate(case.get('prior') or []):
+            try:
+                R['P%d' % j]()
+            except BaseException:
+                et, ev, tb = sys.exc_info()
+                self._prior_obs.append(self._capture_names(tbutils, et, ev, tb, pr.get('via', 'ep')))
+                et = ev = tb = None
         try:
             R[0]()
         except BaseException:
@@ -860,6 +1160,57 @@ class C16(Property):
             if mods[i].get('gone'):
                 os.unlink(paths[i])
         return info, paths, cur
+
+    @staticmethod
+    def _type_attrs(et):
+        """what the interpreter hands over about the exception's class: [__module__ (None when it is no str), __qualname__, __name__]"""
+        mod = et.__module__
+        return [mod if isinstance(mod, str) else None, et.__qualname__, et.__name__]
+
+    STR_FAILED = '<exception str() failed>'
+
+    @classmethod
+    def _std_str(cls, ev):
+        """(str() of the exception as the traceback module shows it, did str() raise); cross-checked against
+        traceback.format_exception_only by the callers"""
+        try:
+            return str(ev), False
+        except Exception:
+            return cls.STR_FAILED, True
+
+    @staticmethod
+    def _std_type(attrs):
+        """the interpreter's display name of an exception class (traceback.TracebackException; written down here and
+        cross-checked against traceback.format_exception_only on every capture)"""
+        mod, qual = attrs[0], attrs[1]
+        if mod in ('__main__', 'builtins'):
+            return qual
+        return ('<unknown>' if mod is None else mod) + '.' + qual
+
+    def _capture_names(self, tbutils, et, ev, tb, via):
+        """one capture of a session, exception part only: ExceptionInfo (type, message, exception-only text) and
+        print_exception without traceback, against the traceback module; 'via' = which of the two is asked first"""
+        o = {'attrs': self._type_attrs(et)}
+        only = traceback.format_exception_only(et, ev)
+        o['std_only'] = ''.join(only)
+        o['std_msg'], o['msg_raised'] = self._std_str(ev)
+        o['std_type'] = self._std_type(o['attrs'])
+        assert o['std_only'] == o['std_type'] + (': ' + o['std_msg'] if o['std_msg'] else '') + '\n'
+        try:
+            with time_limit(10):
+                for step in via:
+                    if step == 'e':
+                        ei = tbutils.ExceptionInfo.from_exc_info(et, ev, tb)
+                        o['ei_type'], o['ei_msg'], o['ei_only'] = ei.exc_type, ei.exc_msg, ei.get_formatted_exception_only()
+                    else:
+                        buf = io.StringIO()
+                        tbutils.print_exception(et, ev, None, file=buf)
+                        o['print'] = buf.getvalue()
+        except CaseTimeout:
+            o['exc'] = 'CaseTimeout'
+        except Exception as e:
+            o['exc'] = exc_name(e)
+        return o
 
     # ------------------------------------------------------------------ what linecache can see (model input)
     @staticmethod
@@ -963,6 +1314,41 @@ class C16(Property):
             out.append('\n'.join(keep))
         return ''.join(out)
 
+    @staticmethod
+    def _flag_lines(frame_chunks, other_chunks):
+        """the interpreter's lines, each with a flag: is it a position-marker line (of a frame chunk)"""
+        out = []
+        for chunks, framey in ((frame_chunks, True), (other_chunks, False)):
+            for ch in chunks:
+                ls = ch.split('\n')
+                if ls and ls[-1] == '':
+                    ls.pop()
+                for j, l in enumerate(ls):
+                    out.append([l, bool(framey and j >= 2 and l.strip() and set(l) <= set('~^ '))])
+        return out
+
+    @staticmethod
+    def _same(text, stripped, flagged, final_nl):
+        """`text` is the interpreter's text, position-marker lines aside: exactly the text without them, or the text
+        with any of the interpreter's own marker lines kept (boltons prints none today; printing them would be no
+        violation).  `final_nl`: does `text` carry the interpreter's final newline"""
+        if text is None or flagged is None:
+            return text == stripped
+        if text + ('' if final_nl else '\n') == stripped:
+            return True
+        lines = text.split('\n')
+        if final_nl:
+            if lines[-1] != '':
+                return False
+            lines.pop()
+        i = 0
+        for l, mark in flagged:
+            if i < len(lines) and lines[i] == l:
+                i += 1
+            elif not mark:
+                return False
+        return i == len(lines)
+
     def run_live(self, case):
         from boltons import tbutils
         obs = {}
@@ -993,6 +1379,8 @@ class C16(Property):
                         linecache.cache.pop(m['file'], None)
             # --- what the interpreter hands over (model input), before anybody looks a line up
             obs['walk'] = self._snapshot(tb)
+            obs['attrs'] = self._type_attrs(et)
+            obs['prior'] = self._prior_obs
             if any(w[4] and w[4][0][0] == 's' and w[4][1][0] == 'n' and w[4][2][0] == 'y' for w in obs['walk']):
                 # a complete linecache entry whose file is gone while the module has a loader: the traceback module
                 # has no stable answer here (no source line on its first call - lazycache runs before checkcache -,
@@ -1012,26 +1400,28 @@ class C16(Property):
                 assert chunks[0] == HEADER + '\n' and chunks[len(chunks) - len(only):] == only
                 obs['std_full'] = ''.join(chunks)
                 obs['std'] = chunks[0] + self._strip_markers(chunks[1:len(chunks) - len(only)]) + ''.join(only)
+                obs['std_fl'] = self._flag_lines(chunks[:len(chunks) - len(only)], only)
                 obs['std_plain'] = chunks[0] + ''.join(
                     traceback.format_list([(f.filename, f.lineno, f.name, f.line) for f in [g]])[0] for g in ex) + ''.join(only)
                 obs['std_tb'] = HEADER + '\n' + self._strip_markers(traceback.format_tb(tb, limit=limit))
+                obs['std_tb_fl'] = self._flag_lines([HEADER + '\n'] + traceback.format_tb(tb, limit=limit), [])
                 obs['std_tb_plain'] = HEADER + '\n' + ''.join(
                     traceback.format_list([(f.filename, f.lineno, f.name, f.line) for f in [g]])[0] for g in exl)
                 if limit is not None and limit >= 1:
                     chl = traceback.format_exception(et, ev, tb, limit=limit)
                     assert chl[0] == HEADER + '\n' and chl[len(chl) - len(only):] == only
                     obs['std_lim'] = chl[0] + self._strip_markers(chl[1:len(chl) - len(only)]) + ''.join(only)
+                    obs['std_lim_fl'] = self._flag_lines(chl[:len(chl) - len(only)], only)
                     obs['std_lim_plain'] = chl[0] + ''.join(
                         traceback.format_list([(f.filename, f.lineno, f.name, f.line) for f in [g]])[0] for g in exl) + ''.join(only)
                 else:
                     obs['std_lim'] = obs['std'] if limit is None else None
+                    obs['std_lim_fl'] = obs['std_fl'] if limit is None else None
                     obs['std_lim_plain'] = obs['std_plain'] if limit is None else None
-                stype = et.__qualname__
-                smod = et.__module__
-                if smod not in ('__main__', 'builtins'):
-                    stype = (smod if isinstance(smod, str) else '<unknown>') + '.' + stype
-                assert only[-1] == stype + (': ' + str(ev) if str(ev) else '') + '\n'
-                obs['std_type'], obs['std_msg'] = stype, str(ev)
+                stype = self._std_type(obs['attrs'])
+                smsg, obs['msg_raised'] = self._std_str(ev)
+                assert only[-1] == stype + (': ' + smsg if smsg else '') + '\n'
+                obs['std_type'], obs['std_msg'] = stype, smsg
 
             def frames_of(tbi):
                 return [[cp.module_path, cp.lineno, cp.func_name, str(cp.line)] for cp in tbi.frames]
@@ -1148,10 +1538,13 @@ class C16(Property):
                     obs['str'] = pe.to_string()
                 except Exception as e:
                     obs['str_exc'] = exc_name(e)
-                obs['source_file'] = pe.source_file
                 return obs
         except CaseTimeout:
             return {'exc': 'CaseTimeout'}
+        except ValueError as e:
+            # the documented error for unrecognised text; a subclass of ValueError is as good (UnicodeDecodeError
+            # for undecodable bytes is one, but no case hands over undecodable bytes)
+            return {'exc': 'ValueError'}
         except Exception as e:
             return {'exc': exc_name(e)}
 
@@ -1167,8 +1560,13 @@ class C16(Property):
                 return None
             lim = case.get('limit')
             tl = case.get('tblimit')
-            toks = ['L', 'n' if lim is None else str(lim), 'n' if tl is None else str(tl), hx(obs['std_type']),
-                    hx(obs['std_msg'])]
+            def tt(attrs):
+                return ('!' if attrs[0] is None else hx(attrs[0])) + ':' + hx(attrs[1])
+            def mt(o):      # str() of the exception, `!` when it raised
+                return '!' if o.get('msg_raised') else hx(o['std_msg'])
+            pri = ';'.join('%s:%s' % (tt(o['attrs']), mt(o)) for o in obs.get('prior') or []) or '-'
+            toks = ['L', 'n' if lim is None else str(lim), 'n' if tl is None else str(tl), tt(obs['attrs']),
+                    mt(obs), pri]
             for fn, ln, name, fid, look in obs['walk']:
                 if look is None:
                     return None
@@ -1193,18 +1591,22 @@ class C16(Property):
             def hp(x, key):
                 return 'X' + obs.get(key + '_exc', '?') if x is None else hx(x)
             fr = ';'.join('%s,%d,%s,%s' % (hx(a), b, hx(c), hx(d)) for a, b, c, d in obs['ei_frames']) or '-'
-            return 'B=%s T=%s S=%s P=%s Q=%s N=%d F=%s' % (
+            ys = ';'.join('X' + o['exc'] if 'exc' in o else '%s,%s,%s' % (hx(o['ei_type']), hx(o['ei_only']), hx(o['print']))
+                          for o in obs.get('prior') or []) or '-'
+            return 'B=%s T=%s S=%s P=%s Q=%s N=%d F=%s Y=%s' % (
                 hx(obs['ei']), hx(obs['tbi']), hx(obs['std']), hp(obs['print'], 'print'),
-                hp(obs['print_lim'], 'print_lim'), obs['std_lim_n'], fr)
+                hp(obs['print_lim'], 'print_lim'), obs['std_lim_n'], fr, ys)
         if 'exc' in obs:
             out = 'err ' + obs['exc']
         else:
             def h(x):
                 return '!' if x is None else hx(x if isinstance(x, str) else str(x))
             fr = ' '.join(','.join(h(x) for x in f) for f in obs['frames']) or '-'
-            s = hx(obs['str']) if 'str' in obs else 'X' + obs['str_exc']
-            out = 'ok n=%d %s | %s %s | %s | %s' % (len(obs['frames']), fr, hx(obs['type']), hx(obs['msg']), s,
-                                                    h(obs['source_file']))
+            # to_string() of frames read from the SyntaxError form (no function name) is outside the statement
+            # (today: KeyError): whatever it does is accepted, on both sides
+            s = '~' if any(f[2] is None for f in obs['frames']) else hx(obs['str']) if 'str' in obs else 'X' + obs['str_exc']
+            # ParsedException.source_file is not something the statement speaks about: not compared
+            out = 'ok n=%d %s | %s %s | %s' % (len(obs['frames']), fr, hx(obs['type']), hx(obs['msg']), s)
         if k == 't':
             # wfc: the model's text-level predicate WFtext accepts every text generated from well-formed data
             out += ' | wf=%d gen=1 wfc=1' % (1 if self.wf_case(case) else 0)
@@ -1275,6 +1677,19 @@ class C16(Property):
             if lk and lk[0][0] == 's' and (lk[1][0] == 'n' or lk[1][1:3] != lk[0][1:3]):
                 st['live_stale_cache_entry'] = st.get('live_stale_cache_entry', 0) + 1
                 break
+        # the earlier captures of the session: each names its own exception class, whatever was captured before
+        for j, o in enumerate(obs.get('prior') or []):
+            st['live_session_capture'] = st.get('live_session_capture', 0) + 1
+            if 'exc' in o:
+                return Failure('raises', 'boltons raised %s on capture #%d of the session' % (o['exc'], j + 1))
+            if o['ei_type'] != o['std_type'] or o['ei_msg'] != o['std_msg']:
+                return Failure('exc_fields', 'capture #%d of the session: ExceptionInfo (%r, %r), interpreter (%r, %r)'
+                               % (j + 1, o['ei_type'], o['ei_msg'], o['std_type'], o['std_msg']))
+            if o['ei_only'] + '\n' != o['std_only'] or o['print'] != o['std_only']:
+                return Failure('format', 'capture #%d of the session: get_formatted_exception_only() = %r, print_exception '
+                               'wrote %r, interpreter = %r' % (j + 1, o['ei_only'], o['print'], o['std_only']))
+        if obs.get('prior'):
+            st['live_sessions'] = st.get('live_sessions', 0) + 1
         if ef != sf:
             return Failure('frames', 'ExceptionInfo frames %r, extract_tb %r' % (ef, sf))
         lf = [[a, b, c, d.strip()] for a, b, c, d in obs['std_lim_frames']]
@@ -1285,16 +1700,17 @@ class C16(Property):
             return Failure('exc_fields', 'ExceptionInfo (%r, %r), interpreter (%r, %r)'
                            % (obs['ei_type'], obs['ei_msg'], obs['std_type'], obs['std_msg']))
         std = obs['std']
-        if obs['ei'] + '\n' != std:
+        fl, tfl = obs.get('std_fl'), obs.get('std_tb_fl')
+        if not self._same(obs['ei'], std, fl, False):
             return Failure('format', 'ExceptionInfo.get_formatted() = %r, interpreter = %r' % (obs['ei'], std))
         only = std[len(std) - len(obs['ei_only']) - 1:]
         if obs['ei_only'] + '\n' != only:
             return Failure('format', 'get_formatted_exception_only() = %r, interpreter = %r' % (obs['ei_only'], only))
-        if obs['tbi'] != obs['std_tb'] or obs['tbi_str'] != obs['tbi']:
+        if not self._same(obs['tbi'], obs['std_tb'], tfl, True) or obs['tbi_str'] != obs['tbi']:
             return Failure('format', 'TracebackInfo.get_formatted() = %r, format_tb = %r' % (obs['tbi'], obs['std_tb']))
-        if obs['print'] != std:
+        if not self._same(obs['print'], std, fl, True):
             return Failure('format', 'print_exception wrote %r (%s), interpreter = %r' % (obs['print'], obs.get('print_exc'), std))
-        if obs['std_lim'] is not None and obs['print_lim'] != obs['std_lim']:
+        if obs['std_lim'] is not None and not self._same(obs['print_lim'], obs['std_lim'], obs.get('std_lim_fl'), True):
             return Failure('format', 'print_exception(limit=%r) wrote %r (%s), interpreter = %r'
                            % (case.get('limit'), obs['print_lim'], obs.get('print_lim_exc'), obs['std_lim']))
         # the same exception through from_current() / from_traceback() while it was being handled, and through
@@ -1302,21 +1718,21 @@ class C16(Property):
         if 'cur' not in obs:
             return Failure('raises', 'ExceptionInfo.from_current() raised %s' % obs.get('cur_exc'))
         cf = [[a, b, c, (d or '').strip()] for a, b, c, d in obs['cur_frames']]
-        if cf != sf or obs['cur'] + '\n' != std:
+        if cf != sf or not self._same(obs['cur'], std, fl, False):
             return Failure('format' if cf == sf else 'frames', 'ExceptionInfo.from_current(): frames %r, text %r; interpreter: %r, %r'
                            % (cf, obs['cur'], sf, std))
-        if obs['cur_tbi'] != obs['std_tb']:
+        if not self._same(obs['cur_tbi'], obs['std_tb'], tfl, True):
             return Failure('format', 'TracebackInfo.from_traceback(limit=%r) of the exception being handled = %r, format_tb = %r'
                            % (case.get('limit'), obs['cur_tbi'], obs['std_tb']))
         xf = [[a, b, c, (d or '').strip()] for a, b, c, d in obs['cei_frames']]
-        if xf != sf or obs['cei'] + '\n' != std:
+        if xf != sf or not self._same(obs['cei'], std, fl, False):
             return Failure('format' if xf == sf else 'frames', 'ContextualExceptionInfo: frames %r, text %r; interpreter: %r, %r'
                            % (xf, obs['cei'], sf, std))
         # the interpreter's own text through the parser (first clause on real texts)
         p = obs['parsed']
         if not self._parsed_ok(p, obs):
             return Failure('parse_std', 'interpreter text %r parsed as %r' % (obs['std_full'], p))
-        if p['str'] + '\n' != std:
+        if not self._same(p['str'], std, fl, False):
             return Failure('parse_std', 'to_string() of the parsed interpreter text = %r, text = %r' % (p['str'], std))
         self._nt = len(sf) >= 2
         return None
@@ -1383,25 +1799,93 @@ class C16(Property):
                 and obs['ei'].replace(obs['ei_type'], obs['std_type']) + '\n' == obs['std_plain']
                 and obs.get('print') is None and obs.get('print_exc') == 'TypeError')
 
+    def _old_str_text(self, o):
+        return '<unprintable %s object>' % o['attrs'][2]
+
+    def _sub_old_str(self, obs):
+        """boltons' texts of the last capture with the pre-5cec9e6 text for a raising str() replaced by the interpreter's"""
+        if not obs.get('msg_raised'):
+            return lambda t: t
+        old = self._old_str_text(obs)
+        return lambda t: None if t is None else t.replace(old, self.STR_FAILED)
+
+    @staticmethod
+    def _layouts(obs, sub):
+        """(boltons text, the interpreter's text, the same with every entry printed on its own) per formatted output"""
+        out = [(sub(obs['ei']) + '\n', obs['std'], obs['std_plain']),
+               (sub(obs['print']), obs['std'], obs['std_plain']),
+               (sub(obs.get('cur', obs['ei'])) + '\n', obs['std'], obs['std_plain']),
+               (sub(obs.get('cei', obs['ei'])) + '\n', obs['std'], obs['std_plain']),
+               (obs['tbi'], obs['std_tb'], obs.get('std_tb_plain', obs['std_tb'])),
+               (obs.get('cur_tbi', obs['tbi']), obs['std_tb'], obs.get('std_tb_plain', obs['std_tb']))]
+        if obs.get('std_lim') is not None:
+            out.append((sub(obs.get('print_lim')), obs['std_lim'], obs.get('std_lim_plain')))
+        return out
+
+    def _uncollapsed_everywhere(self, obs, sub):
+        """every formatted output is exactly the interpreter's layout with each entry printed on its own"""
+        try:
+            return all(b == plain for b, _, plain in self._layouts(obs, sub))
+        except TypeError:       # an output is missing (None)
+            return False
+
+    def finding_str_raises(self, case, failure):
+        """live kind: str() of the exception raises; the interpreter prints '<exception str() failed>', boltons before fix
+        5cec9e6 the Python 2 text '<unprintable X object>'. Matched only while that text is the only difference (the
+        uncollapsed layout of the other repaired finding aside)"""
+        if case['k'] != 'l' or failure.tag not in ('exc_fields', 'format'):
+            return False
+        obs = self._live_obs(case)
+        pri = obs.get('prior') or []
+        if 'ei' not in obs or not (obs.get('msg_raised') or any(o.get('msg_raised') for o in pri)):
+            return False
+        for o in pri:
+            want = self._old_str_text(o) if o.get('msg_raised') else o['std_msg']
+            if 'exc' in o or o['ei_type'] != o['std_type'] or o['ei_msg'] != want:
+                return False
+            if o['ei_only'] != o['std_type'] + (': ' + want if want else '') or o['print'] != o['ei_only'] + '\n':
+                return False
+        if not obs.get('msg_raised'):
+            # the earlier captures show exactly the old text; the last capture must be in order by itself
+            # (or show one of the other known findings, judged by their own predicates)
+            rest = self.oracle(case, dict(obs, prior=[]))
+            if rest is None:
+                return True
+            rest.model_agrees = None    # the model (fixed code) differs on the earlier captures already
+            return any(pred(case, rest) for pred in (
+                self.finding_recursion_collapse, self.finding_collapse_line_not_parsed, self.finding_exotic_line_separators,
+                self.finding_message_trailing_newline))
+        if obs['ei_type'] != obs['std_type'] or obs['ei_msg'] != self._old_str_text(obs):
+            return False
+        if [f[:3] for f in obs['ei_frames']] != [f[:3] for f in obs['std_frames']]:
+            return False
+        # the old text aside, every output is the interpreter's - or (the other repaired finding) its uncollapsed layout
+        try:
+            return all(b == std or b == plain for b, std, plain in self._layouts(obs, self._sub_old_str(obs)))
+        except TypeError:
+            return False
+
     def finding_recursion_collapse(self, case, failure):
-        """live kind: the interpreter collapses more than 3 identical consecutive entries into
-        '[Previous line repeated N more times]'; boltons prints (and cannot parse) no such line"""
-        if getattr(failure, 'model_agrees', None) is False or case['k'] != 'l' or failure.tag not in ('format', 'parse_std'):
+        """live kind, formatted output: the interpreter collapses more than 3 identical consecutive entries into
+        '[Previous line repeated N more times]'; before fix 7fb4f9f boltons printed every entry. Matched only while
+        the implementation prints exactly the uncollapsed layout everywhere (the model follows the fixed code, so
+        agreement with the model is not asked for here)"""
+        if case['k'] != 'l' or failure.tag != 'format':
             return False
         obs = self._live_obs(case)
         if 'std' not in obs or not any('  [Previous line repeated ' in (obs.get(k) or '') for k in ('std', 'std_tb', 'std_lim')):
             return False
-        if failure.tag == 'format':
-            # exactly the uncollapsed layout everywhere, nothing else differs
-            plain = obs['std_plain']
-            tb_plain = obs.get('std_tb_plain', obs['std_tb'])
-            return (obs['ei'] + '\n' == plain and obs['print'] == plain
-                    and obs.get('cur', obs['ei']) + '\n' == plain and obs.get('cei', obs['ei']) + '\n' == plain
-                    and (obs.get('std_lim_plain') is None or obs.get('print_lim') == obs['std_lim_plain'])
-                    and obs['tbi'] == tb_plain and obs.get('cur_tbi', obs['tbi']) == tb_plain)
-        if '  [Previous line repeated ' not in obs['std']:
+        return self._uncollapsed_everywhere(obs, self._sub_old_str(obs))
+
+    def finding_collapse_line_not_parsed(self, case, failure):
+        """live kind, the interpreter's own text through from_string: a '[Previous line repeated N more times]' line is
+        no frame line, from_string stops there; matched only while the implementation agrees with the verified model
+        and the same entries printed one by one parse and round-trip correctly"""
+        if getattr(failure, 'model_agrees', None) is False or case['k'] != 'l' or failure.tag != 'parse_std':
             return False
-        # the same entries printed one by one (no collapse line) parse and round-trip correctly
+        obs = self._live_obs(case)
+        if 'std' not in obs or '  [Previous line repeated ' not in obs['std']:
+            return False
         return (self._parsed_ok(obs['parsed_plain'], obs) and obs['parsed_plain']['str'] + '\n' == obs['std_plain']
                 and not obs['std_msg'].endswith('\n') and not any(c in obs['std_msg'] for c in EXOTIC))
 
@@ -1444,7 +1928,7 @@ class C16(Property):
         for i in range(len(links)):
             yield dict(case, links=links[:i] + links[i + 1:])
         for i, ln in enumerate(links):
-            if ln['kind'] == 'rec' and ln.get('n', 0) > 0:
+            if ln['kind'] in ('rec', 'rec2', 'recalt') and ln.get('n', 0) > 0:
                 yield dict(case, links=links[:i] + [dict(ln, n=ln['n'] - 1)] + links[i + 1:])
             if ln['kind'] != 'call':
                 yield dict(case, links=links[:i] + [{'m': ln['m'], 'kind': 'call'}] + links[i + 1:])
@@ -1461,7 +1945,19 @@ class C16(Property):
             yield {k: v for k, v in case.items() if k != 'skip'}
         if case.get('seq'):
             yield {k: v for k, v in case.items() if k != 'seq'}
+        pri = case.get('prior') or []
+        for i in range(len(pri)):
+            rest = pri[:i] + pri[i + 1:]
+            yield dict({k: v for k, v in case.items() if k != 'prior'}, **({'prior': rest} if rest else {}))
+        for i, pr in enumerate(pri):
+            for key in ('via', 'm'):
+                if key in pr:
+                    yield dict(case, prior=pri[:i] + [{k: v for k, v in pr.items() if k != key}] + pri[i + 1:])
+            if pr['args'] != ['x']:
+                yield dict(case, prior=pri[:i] + [dict(pr, args=['x'])] + pri[i + 1:])
         exc = case['exc']
+        if pri:
+            return          # the classes of a session refer to each other: keep them
         if exc['kind'] != 'builtin':
             yield dict(case, exc={'kind': 'builtin', 'name': 'ValueError', 'm': exc['m'], 'args': exc['args']})
         if exc['args'] != ['x']:
